@@ -116,7 +116,14 @@ class C08(Prop):
         self._cases = [self.gen_named_case(rng) for _ in range(n)]
         yield 'in-process', self._cases
         md5 = []
-        for c in self._cases[:10]:
+        special = []
+        for k, c in enumerate(self._cases[:2]):
+            # contents outside ASCII: the hash is the MD5 of the UTF-8 bytes, nothing more
+            c2 = json.loads(json.dumps(c))
+            c2['cfg']['copyright'] = ['Copyright \u00a9 2024 Zo\u00eb M\u00fcller', '\u7248\u6743 \U0001F600'][k]
+            c2['cfg']['creator'] = 'cr\u00e9ateur'
+            special.append(c2)
+        for c in special + self._cases[:10]:
             r = G.build_real(c)
             if isinstance(r, tuple):
                 for f in r[1].files[:3]:
